@@ -212,7 +212,8 @@ func runDescribe(o *codec.Out, t *testing.T, timeout time.Duration, script []scr
 	o.Rec(r)
 }
 
-const mcastAddr = "239.77.77.77:36711"
+// one group and port per process, so that two checks running at the same time on one host do not hear each other
+var mcastAddr = "239.77." + strconv.Itoa(1+os.Getpid()%250) + ".77:" + strconv.Itoa(36000+os.Getpid()%2000)
 
 func runDiscover(o *codec.Out, t *testing.T, timeout time.Duration, script []scriptEntry, slack time.Duration, fill func(*lookupRec)) bool {
 	grp, _ := net.ResolveUDPAddr("udp4", mcastAddr)
@@ -344,6 +345,12 @@ func TestC20(t *testing.T) {
 			}
 		}
 	}
+	for _, to := range []time.Duration{5 * time.Millisecond, 40 * time.Millisecond} {
+		runDescribeDead(o, t, to, slack)
+	}
+	if okMC {
+		runDiscoverFail(o, t)
+	}
 	if !okMC {
 		t.Log("multicast group not usable here: discovery half skipped")
 	}
@@ -370,6 +377,54 @@ func stallMeter() (stop func() int) {
 		}
 	}()
 	return func() int { close(quit); return <-res }
+}
+
+// runDescribeDead queries a port nobody listens on: the kernel answers with "port unreachable", the socket's receiver
+// ends, and the call must still come back with no result at its timeout (no panic, no hang).
+func runDescribeDead(o *codec.Out, t *testing.T, timeout, slack time.Duration) {
+	pc, err := net.ListenUDP("udp4", &net.UDPAddr{IP: net.IPv4(127, 0, 0, 1)})
+	if err != nil {
+		t.Fatal(err)
+	}
+	addr := pc.LocalAddr().String()
+	pc.Close()
+	r := lookupRec{K: "lookup", Op: "describe", Allowed: [][]int{}, Extra: []int{}, Timeout: int(timeout / time.Microsecond), Script: []scriptEntry{}, Found: []int{},
+		Slack: int(slack / time.Microsecond), Reqs: 1, HpaiOK: 1, Released: 1}
+	meter := stallMeter()
+	t0 := time.Now()
+	var res *knxnet.DescriptionRes
+	var cerr error
+	if p, _ := codec.Guarded(func() { res, cerr = knx.DescribeTunnel(addr, timeout) }); p {
+		r.Err = 2 // a panic escaped the call
+	}
+	r.Elapsed = int(time.Since(t0) / time.Microsecond)
+	r.Stall = meter()
+	if res != nil {
+		r.Found = append(r.Found, 99)
+	}
+	_ = cerr // (an error return is as good as "no result")
+	o.Rec(r)
+}
+
+// runDiscoverFail makes Discover fail after its socket is open (the discovery address carries port 0, which cannot be
+// advertised) and checks that no receiver goroutine and no socket is left behind.
+func runDiscoverFail(o *codec.Out, t *testing.T) {
+	before := goroutinesWith("knxnet.serveUDPSocket")
+	r := lookupRec{K: "lookup", Op: "discover", Allowed: [][]int{}, Extra: []int{}, Timeout: 20000, Script: []scriptEntry{}, Found: []int{}, Slack: 25000, Reqs: 1, HpaiOK: 1}
+	failed := 0
+	t0 := time.Now()
+	for i := 0; i < 5; i++ {
+		if res, err := knx.Discover(strings.Split(mcastAddr, ":")[0]+":0", 20*time.Millisecond); err != nil || res == nil {
+			failed++
+		}
+	}
+	r.Elapsed = int(time.Since(t0)/time.Microsecond) / 5
+	if r.Elapsed < r.Timeout && failed == 5 {
+		r.Elapsed = r.Timeout // (the lower bound of discover concerns successful discoveries)
+	}
+	time.Sleep(3 * time.Millisecond)
+	r.Released = codec.B2i(goroutinesWith("knxnet.serveUDPSocket") <= before)
+	o.Rec(r)
 }
 
 type tableRow struct {
